@@ -1556,4 +1556,49 @@ theorem runCommand_vars_persist (fuel : Nat) (inp : Input) (c : Command) (s s' :
     repeat' (split at h)
     all_goals first | (cases h; done) | exact ((exec_frame _).2.2.1 _ _ _ h).vars
 
+/-! ### only `:=` touches variables -/
+
+def SameVars (s s' : St) : Prop := s'.vars = s.vars ∧ s'.entryVars = s.entryVars
+
+theorem SameVars.trans {a b c : St} (h1 : SameVars a b) (h2 : SameVars b c) : SameVars a c :=
+  ⟨h2.1.trans h1.1, h2.2.trans h1.2⟩
+
+theorem pop_sameVars {s s1 : St} {v : Val} (h : pop s = .ok (v, s1)) : SameVars s s1 := by
+  rw [(pop_eq h).1]; exact ⟨rfl, rfl⟩
+
+theorem popInt_sameVars {s s1 : St} {n : Int} (h : popInt s = .ok (n, s1)) : SameVars s s1 := by
+  unfold popInt at h
+  split at h
+  · cases h
+  · rename_i hp; cases h; exact pop_sameVars hp
+  · cases h
+
+theorem popStr_sameVars {s s1 : St} {x : Str} (h : popStr s = .ok (x, s1)) : SameVars s s1 := by
+  unfold popStr at h
+  split at h
+  · cases h
+  · rename_i hp; cases h; exact pop_sameVars hp
+  · rename_i hp; cases h; exact pop_sameVars hp
+  · cases h
+
+macro "vars_chain" : tactic => `(tactic| repeat (first
+  | refine SameVars.trans (pop_sameVars (by assumption)) ?_
+  | refine SameVars.trans (popInt_sameVars (by assumption)) ?_
+  | refine SameVars.trans (popStr_sameVars (by assumption)) ?_))
+
+theorem prim_sameVars (f : Nat) (b : Builtin) (s s' : St)
+    (hb : b ≠ .callType ∧ b ≠ .if_ ∧ b ≠ .while_ ∧ b ≠ .assign)
+    (h : runBuiltin (f+1) b s = .ok s') : SameVars s s' := by
+  cases b
+  case callType => exact absurd rfl hb.1
+  case if_ => exact absurd rfl hb.2.1
+  case while_ => exact absurd rfl hb.2.2.1
+  case assign => exact absurd rfl hb.2.2.2
+  all_goals
+    simp only [runBuiltin] at h
+    repeat' (split at h)
+    all_goals first
+      | (cases h; done)
+      | (cases h; vars_chain; exact ⟨rfl, rfl⟩)
+
 end Pybtex.Interp
